@@ -102,7 +102,7 @@ def _style_enc(obj, index_of):
     return enc(style, index_of)
 
 
-def snap_obj(obj, index_of, with_style=True):
+def snap_obj(obj, index_of, with_style=True, strict_style=False):
     out = {"cls": type(obj).__name__}
     for k, v in sorted(vars(obj).items()):
         if k in ("_style", "_style_kwargs"):
@@ -110,13 +110,18 @@ def snap_obj(obj, index_of, with_style=True):
         out[k] = enc(v, index_of)
     if with_style:
         out["style"] = _style_enc(obj, index_of)
+    if strict_style:
+        # whether the lazily created style object exists is observable (copy() labels the copy of an
+        # object that has a style object): a pure read such as a field computation must not change it
+        out["style_materialised"] = getattr(obj, "_style", None) is not None
+        out["style_pending"] = enc(dict(getattr(obj, "_style_kwargs", None) or {}), index_of)
     return out
 
 
-def snap_world(world, with_style=True, extra=None):
+def snap_world(world, with_style=True, extra=None, strict_style=False):
     """Snapshot of all pool objects (+ optional extra named values, e.g. caller arrays)."""
     idx = world.index
-    s = {"objs": [snap_obj(o, idx, with_style) for o in world.objs]}
+    s = {"objs": [snap_obj(o, idx, with_style, strict_style) for o in world.objs]}
     if extra:
         s["extra"] = {k: enc(v, idx) for k, v in extra.items()}
     return s
